@@ -96,7 +96,7 @@ var layouts = []layout{
 	{11, "sleep", "I I"},
 	{21, "job.list", "I1 *(I I I)"}, {21, "job.suspend", "I2 I I"}, {21, "job.resume", "I3 I I"}, {21, "job.kill", "I4 I I"}, {21, "job.died", "I5"},
 	{15, "fs.dir", "I1 B B W B *(W N N Q *(W B Q I I I I I))"}, {15, "fs.dir.list", "I1 B0 B1 W B1 *(W N N *(W))"}, {15, "fs.dir.listempty", "I1 B0 B1 W B1 E N N E"},
-	{15, "fs.dl.open", "I2 I0 I Q W"}, {15, "fs.dl.write", "I2 I1 I X"}, {15, "fs.dl.close", "I2 I2 I I"}, {15, "fs.dl.badmode", "I2 I I"},
+	{15, "fs.dl.open", "I2 I0 I Q W"}, {15, "fs.dl.write", "I2 I1 I X"}, {15, "fs.dl.close", "I2 I2 I I"}, {15, "fs.dl.badmode", "I2 I I"}, {15, "fs.dl.write.open", "I2 I1 T X"}, {15, "fs.dl.close.open", "I2 I2 T I0"}, {15, "fs.dl.remove.open", "I2 I2 T I1"}, {2530, "transfer.list.open", "I0 T I I T I I"},
 	{15, "fs.upload", "I3 I W"}, {15, "fs.cd", "I4 W"}, {15, "fs.remove", "I5 I W"}, {15, "fs.mkdir", "I6 W"}, {15, "fs.copy", "I7 I W W"}, {15, "fs.move", "I8 I W W"},
 	{15, "fs.pwd", "I9 W"}, {15, "fs.cat", "I10 W I S"}, {15, "fs.unknown", "I"},
 	{12, "proclist", "I *(W I I I I I W)"},
@@ -134,7 +134,7 @@ type bodyGen struct {
 func (g *bodyGen) label(s string) string { g.n++; return fmt.Sprintf("%s%d", s, g.n) }
 
 func (g *bodyGen) i32() uint32 {
-	return rapid.OneOf(rapid.SampledFrom([]uint32{0, 1, 2, 3, 0x7fffffff, 0x80000000, 0xffffffff, outstanding, agentIDs[0], childID}), rapid.Uint32Range(0, 40), rapid.Uint32()).Draw(g.t, g.label("i"))
+	return rapid.OneOf(rapid.SampledFrom([]uint32{0, 1, 2, 3, 7, 8, 9, 0x7fffffff, 0x80000000, 0xffffffff, outstanding, agentIDs[0], childID}), rapid.Uint32Range(0, 40), rapid.Uint32()).Draw(g.t, g.label("i"))
 }
 
 func (g *bodyGen) text() string {
@@ -180,6 +180,8 @@ func (g *bodyGen) seq(toks []string) {
 			g.e.Int32(rapid.OneOf(rapid.Uint32Range(0, 4), rapid.SampledFrom([]uint32{0x7fffffff, 0xffffffff})).Draw(g.t, g.label("n")))
 		case tk == "P":
 			g.e.Int32(rapid.SampledFrom([]uint32{childID, agentIDs[0], agentIDs[1], 0, 0xdeadbeef}).Draw(g.t, g.label("p")))
+		case tk == "T": // the id of a transfer that the Download state has open
+			g.e.Int32(rapid.SampledFrom([]uint32{7, 8, 9}).Draw(g.t, g.label("t")))
 		case tk == "L": // loopback address as the Demon reports it (in_addr word written big-endian): 127.0.0.1
 			g.e.Int32(0x0100007f)
 		case tk == "Q":
@@ -497,8 +499,13 @@ func check(c Case) *core.Violation {
 	if c.Download {
 		a := w.Agent(agentIDs[0])
 		a.AddRequest(agent.Job{RequestID: 0x0d0d, Command: agent.COMMAND_FS})
-		body := (&demonref.Enc{}).Int32(2).Int32(0).Int32(7).Int64(100).WString("C:\\loot\\report.txt").B
-		w.Checkin(sessions[0], []demonref.Sub{{Cmd: agent.COMMAND_FS, ReqID: 0x0d0d, Body: body}})
+		// several transfers are open at once (file ids 7, 8, 9), as with a real agent downloading a folder
+		var subs []demonref.Sub
+		for fid := uint32(7); fid <= 9; fid++ {
+			body := (&demonref.Enc{}).Int32(2).Int32(0).Int32(fid).Int64(100).WString(fmt.Sprintf("C:\\loot\\report%d.txt", fid)).B
+			subs = append(subs, demonref.Sub{Cmd: agent.COMMAND_FS, ReqID: 0x0d0d, Body: body})
+		}
+		w.Checkin(sessions[0], subs)
 	}
 
 	for ri, r := range c.Reqs {
